@@ -54,7 +54,7 @@ ASSUMPTIONS = ['a hand-over is a push to the output staging queue or a '
                'a task dropped by the intake cancel filter was never accepted '
                'by the executor (its resources are C03/C08 business)']
 SHARDS   = {'quick': 16, 'thorough': 16}
-TIMEOUT  = {'quick': 300, 'thorough': 3000}
+TIMEOUT  = {'quick': 600, 'thorough': 5400}
 REQUIRED = {'uids_checked': 400, 'set:hits': 12, 'cancels_placed': 100,
             'poisons_hit': 30, 'line_events': 5000}
 
